@@ -34,7 +34,7 @@ for label in sorted(set(list(out) + list(meta))):
     ev = out.get(label, {})
     cells = []
     for chk, r in ev.items():
-        if r.get("rc") == 1:
+        if r.get("rc") == 1 or (r.get("rc") is None and r.get("violations", 0) > 0):
             how = []
             if r.get("theorems") and r["theorems"].split("/")[0] != r["theorems"].split("/")[1]: how.append("proof/translator broke")
             if r.get("disagreements"): how.append("%d model≠impl" % r["disagreements"])
